@@ -10,6 +10,7 @@
   executed for real by the correspondence check at every cut.
 -/
 import TT.Lemmas.RecvSim
+import TT.Lemmas.RecvCut
 
 namespace TT
 
@@ -48,7 +49,33 @@ theorem C02_independent_of_cuts (w₁ w₂ : World) (ops₁ ops₂ : List HOp)
     (hd₁ : noDiscard ops₁ = true) (hd₂ : noDiscard ops₂ = true)
     (hev : eventsOf ops₁ = eventsOf ops₂) :
     lookupEq (runHistory (Sys.init w₁) ops₁).σ.r.spans (runHistory (Sys.init w₂) ops₂).σ.r.spans := by
-  sorry
+  have key : ∀ (ops : List HOp) (ss : SpecSys), noDiscard ops = true →
+      (runSpec ss ops).cur = (eventsOf ops).foldl
+        (fun c e => if (c.invalid e).isEmpty then c.apply e else c) ss.cur := by
+    intro ops
+    induction ops with
+    | nil => intro ss _; rfl
+    | cons op ops ih =>
+      intro ss hd
+      cases op with
+      | ev e =>
+        have hd' : noDiscard ops = true := hd
+        have hrec := ih (ss.step (.ev e)) hd'
+        show (runSpec (ss.step (.ev e)) ops).cur = _
+        rw [hrec]
+        simp only [eventsOf, List.foldl_cons, SpecSys.step]
+        split <;> rfl
+      | persist m =>
+        have hd' : noDiscard ops = true := hd
+        have hrec := ih (ss.step (.persist m)) hd'
+        show (runSpec (ss.step (.persist m)) ops).cur = _
+        rw [hrec]
+        rfl
+      | discard => simp [noDiscard] at hd
+  have a := (recv_state_is_spec w₁ ops₁ h₁).1
+  have b := (recv_state_is_spec w₂ ops₂ h₂).1
+  intro k
+  rw [a k, b k, key ops₁ {} hd₁, key ops₂ {} hd₂, hev]
 
 /-- Insert `persist keep` after the positions listed in `cuts`. -/
 def withCuts (evs : List Event) (cuts : List Nat) : List HOp :=
@@ -57,6 +84,16 @@ def withCuts (evs : List Event) (cuts : List Nat) : List HOp :=
 
 def nonRegister : List HostCall → List HostCall :=
   List.filter fun c => match c with | .register _ => false | _ => true
+
+theorem withCuts_eq_cutOps (cuts : List Nat) : ∀ (evs : List Event) (k : Nat),
+    ((evs.zipIdx k).map fun (e, i) =>
+      if (i + 1) ∈ cuts then [HOp.ev e, HOp.persist .keep] else [HOp.ev e]).flatten
+      = cutOps cuts k evs
+  | [], _ => rfl
+  | e :: es, k => by
+    simp only [List.zipIdx_cons, List.map_cons, List.flatten_cons, withCuts_eq_cutOps cuts es (k + 1),
+      cutOps]
+    split <;> rfl
 
 /-- First clause. If the stream is cut (persist, restore with the retained local map) at points
     where the receiver holds no entered span, the host log, the host span stack and every
@@ -70,7 +107,15 @@ theorem C02_cut_invisible (w₀ : World) (harena : w₀.arena.Nodup) (evs : List
     cut.σ.w.host.stack = uncut.σ.w.host.stack ∧
     cut.σ.w.arena = uncut.σ.w.arena ∧
     results (Sys.init w₀) (withCuts evs cuts) = results (Sys.init w₀) (evs.map .ev) := by
-  sorry
+  have hgood : Good (Sys.init w₀).σ := ⟨harena, (by intro _ h; cases h), List.nodup_nil⟩
+  have hw : withCuts evs cuts = cutOps cuts 0 evs := withCuts_eq_cutOps cuts evs 0
+  have h := cut_main cuts evs 0 (Sys.init w₀) (Sys.init w₀) rfl hgood
+    (fun n _ hn => hq n (by simpa using hn))
+  rw [← hw] at h
+  have hwld : (runHistory (Sys.init w₀) (withCuts evs cuts)).σ.w
+      = (runHistory (Sys.init w₀) (evs.map .ev)).σ.w := congrArg (fun σ => σ.w) h.1
+  exact ⟨congrArg (fun w => w.host.log) hwld, congrArg (fun w => w.host.stack) hwld,
+    congrArg (fun w => w.arena) hwld, h.2⟩
 
 /-- Non-vacuity: a cut stream with a span alive (and a second one created after the cut whose
     explicit parent lives across the cut). -/
